@@ -50,6 +50,14 @@ def run(ctx):
             la.append("%s %s %s\n" % (kw, s, rng.choice(linegen.ORDINARY)))
             lb.append("%s %s %s\n" % (kw, s2, rng.choice([la[-1].split()[-1]])))
             ms.append(("standalone", s, s2, ("", ""), ""))
+        # optional parts of the line forms (privilege / level numbers) in front of the secret
+        for tpl in ("enable secret level 15 5 {}", "username bob privilege 15 secret 5 {}", "enable password level 7 {}", "standby 3 authentication md5 key-string 7 {}"):
+            cls = "md5" if " 5 {}" in tpl else "type7" if " 7 {}" in tpl else "text"
+            s = textgen.make_secret(rng, cls)
+            s2 = renamed(rng, s, mp)
+            la.append(secretlib.build(tpl, s))
+            lb.append(secretlib.build(tpl, s2))
+            ms.append((tpl, s, s2, ("", ""), ""))
         salt = rng.choice(["s", "Q", "", "xyz"])
         pairs.append((textgen.pipe(la, flags="pl", salt=salt), textgen.pipe(lb, flags="pl", salt=salt), ms))
     cases = [p[0] for p in pairs] + [p[1] for p in pairs]
@@ -67,6 +75,8 @@ def run(ctx):
             lab = "impl"
             if textgen.classify(s) == "numeric" and tr.strip() and re.search(r"(password|passwd) (level \d+ )?(\d+ )?\{\}$", tpl):
                 lab = "numeric-then-word"            # D11
+            if tpl == "enable secret level 15 5 {}":
+                lab = "reserved-word-captured"       # D12
             if x != y:
                 ctx.fail("output depends on the secret's content: same line form, secrets %r / %r of the same class" % (s, s2), {"template": tpl, "line_a": ca[11 + j], "line_b": cb[11 + j]}, [x, y], label=lab)
             elif len(s) >= 4 and s in x and not secretlib.SCRUB in x:
